@@ -47,6 +47,12 @@ static size_t unhex(const char *h, unsigned char *out) {
     return n;
 }
 /* exact-size heap copy so that ASan sees any over-read/over-write */
+/* exact-size buffers, also for size 0: ASan gives malloc(0) one addressable byte, so a zero-length buffer is taken from a
+   poisoned static region instead and any access through it is reported */
+#include <sanitizer/asan_interface.h>
+static char zero_guard[64];
+static void *zalloc(size_t n) { if (n) return malloc(n); ASAN_POISON_MEMORY_REGION(zero_guard, sizeof zero_guard); return zero_guard + 32; }
+static void zfree(void *p) { if ((char *) p >= zero_guard && (char *) p < zero_guard + sizeof zero_guard) return; free(p); }
 static void *exact(const void *src, size_t n) { void *p = malloc(n); if (n) memcpy(p, src, n); return p; }
 
 /* ------------------------------------------------------------------ watchdog */
@@ -87,10 +93,10 @@ static scpi_result_t generic(scpi_t *c) {
         else if (!strcmp(name, "PCHOICE")) { int32_t v = 0; AFTER(atoi(a1)) ok = SCPI_ParamChoice(c, choice_def, &v, mand); flushw(); oprintf(" P6:%d:", ok); if (ok) oprintf("%d", v); }
         else if (!strcmp(name, "PCHARS")) { const char *p = NULL; size_t l = 0; AFTER(atoi(a1)) ok = SCPI_ParamCharacters(c, &p, &l, mand); flushw(); oprintf(" P7:%d:", ok); if (ok) pvals_bytes((const unsigned char *) p, l); }
         else if (!strcmp(name, "PTEXT")) {
-            size_t bl = atoi(a1); AFTER(atoi(a2)) char *b = malloc(bl); memset(b, 0x5a, bl); size_t cl = 0;   /* exact size, also for 0: a write at b[0] is then an ASan report */
+            size_t bl = atoi(a1); AFTER(atoi(a2)) char *b = zalloc(bl); memset(b, 0x5a, bl); size_t cl = 0;   /* exact size, also for 0: a write at b[0] is then an ASan report */
             ok = SCPI_ParamCopyText(c, b, bl, &cl, mand); flushw(); oprintf(" P8:%d:", ok);
             if (ok) { oprintf("%d", (cl < bl && b[cl] == 0) ? 1 : 0); for (size_t i = 0; i < cl; i++) oprintf(",%d", (unsigned char) b[i]); }
-            free(b); }
+            zfree(b); }
         else if (!strcmp(name, "PBLOCK")) { const char *p = NULL; size_t l = 0; AFTER(atoi(a1)) ok = SCPI_ParamArbitraryBlock(c, &p, &l, mand); flushw(); oprintf(" P9:%d:", ok); if (ok) pvals_bytes((const unsigned char *) p, l); }
         else if (!strcmp(name, "PD")) { double v = 0; AFTER(atoi(a1)) ok = SCPI_ParamDouble(c, &v, mand); uint64_t b; memcpy(&b, &v, 8); flushw(); oprintf(" P10:%d:", ok); if (ok) oprintf("%" PRIu64, b); }
         else if (!strcmp(name, "PF")) { float v = 0; AFTER(atoi(a1)) ok = SCPI_ParamFloat(c, &v, mand); uint32_t b; memcpy(&b, &v, 4); flushw(); oprintf(" P11:%d:", ok); if (ok) oprintf("%u", b); }
@@ -99,12 +105,12 @@ static scpi_result_t generic(scpi_t *c) {
             if (ok) { if (v.special) oprintf("1,%d,%d,%d", v.content.tag, v.unit, v.base); else { uint64_t b; memcpy(&b, &v.content.value, 8); oprintf("0,%" PRIu64 ",%d,%d", b, v.unit, v.base); } } }
         else if (!strcmp(name, "PARR")) {   /* PARR:type:cap:mand  -- ASCII format array readers; type i32|u32|i64|u64|d|f */
             size_t cap = atoi(a2), n = 0; AFTER(atoi(a3)) flushw();
-            if (!strcmp(a1, "i32")) { int32_t *a = malloc(cap * 4 + 1); ok = SCPI_ParamArrayInt32(c, a, cap, &n, SCPI_FORMAT_ASCII, mand); oprintf(" P13:%d:", ok); if (ok) for (size_t i = 0; i < n && i < cap; i++) oprintf("%s%d", i ? "," : "", a[i]); free(a); }
-            else if (!strcmp(a1, "u32")) { uint32_t *a = malloc(cap * 4 + 1); ok = SCPI_ParamArrayUInt32(c, a, cap, &n, SCPI_FORMAT_ASCII, mand); oprintf(" P14:%d:", ok); if (ok) for (size_t i = 0; i < n && i < cap; i++) oprintf("%s%u", i ? "," : "", a[i]); free(a); }
-            else if (!strcmp(a1, "i64")) { int64_t *a = malloc(cap * 8 + 1); ok = SCPI_ParamArrayInt64(c, a, cap, &n, SCPI_FORMAT_ASCII, mand); oprintf(" P15:%d:", ok); if (ok) for (size_t i = 0; i < n && i < cap; i++) oprintf("%s%" PRId64, i ? "," : "", a[i]); free(a); }
-            else if (!strcmp(a1, "u64")) { uint64_t *a = malloc(cap * 8 + 1); ok = SCPI_ParamArrayUInt64(c, a, cap, &n, SCPI_FORMAT_ASCII, mand); oprintf(" P16:%d:", ok); if (ok) for (size_t i = 0; i < n && i < cap; i++) oprintf("%s%" PRIu64, i ? "," : "", a[i]); free(a); }
-            else if (!strcmp(a1, "d")) { double *a = malloc(cap * 8 + 1); ok = SCPI_ParamArrayDouble(c, a, cap, &n, SCPI_FORMAT_ASCII, mand); oprintf(" P17:%d:", ok); if (ok) for (size_t i = 0; i < n && i < cap; i++) { uint64_t b; memcpy(&b, &a[i], 8); oprintf("%s%" PRIu64, i ? "," : "", b); } free(a); }
-            else { float *a = malloc(cap * 4 + 1); ok = SCPI_ParamArrayFloat(c, a, cap, &n, SCPI_FORMAT_ASCII, mand); oprintf(" P18:%d:", ok); if (ok) for (size_t i = 0; i < n && i < cap; i++) { uint32_t b; memcpy(&b, &a[i], 4); oprintf("%s%u", i ? "," : "", b); } free(a); }
+            if (!strcmp(a1, "i32")) { int32_t *a = zalloc(cap * 4); ok = SCPI_ParamArrayInt32(c, a, cap, &n, SCPI_FORMAT_ASCII, mand); oprintf(" P13:%d:", ok); if (ok) for (size_t i = 0; i < n && i < cap; i++) oprintf("%s%d", i ? "," : "", a[i]); zfree(a); }
+            else if (!strcmp(a1, "u32")) { uint32_t *a = zalloc(cap * 4); ok = SCPI_ParamArrayUInt32(c, a, cap, &n, SCPI_FORMAT_ASCII, mand); oprintf(" P14:%d:", ok); if (ok) for (size_t i = 0; i < n && i < cap; i++) oprintf("%s%u", i ? "," : "", a[i]); zfree(a); }
+            else if (!strcmp(a1, "i64")) { int64_t *a = zalloc(cap * 8); ok = SCPI_ParamArrayInt64(c, a, cap, &n, SCPI_FORMAT_ASCII, mand); oprintf(" P15:%d:", ok); if (ok) for (size_t i = 0; i < n && i < cap; i++) oprintf("%s%" PRId64, i ? "," : "", a[i]); zfree(a); }
+            else if (!strcmp(a1, "u64")) { uint64_t *a = zalloc(cap * 8); ok = SCPI_ParamArrayUInt64(c, a, cap, &n, SCPI_FORMAT_ASCII, mand); oprintf(" P16:%d:", ok); if (ok) for (size_t i = 0; i < n && i < cap; i++) oprintf("%s%" PRIu64, i ? "," : "", a[i]); zfree(a); }
+            else if (!strcmp(a1, "d")) { double *a = zalloc(cap * 8); ok = SCPI_ParamArrayDouble(c, a, cap, &n, SCPI_FORMAT_ASCII, mand); oprintf(" P17:%d:", ok); if (ok) for (size_t i = 0; i < n && i < cap; i++) { uint64_t b; memcpy(&b, &a[i], 8); oprintf("%s%" PRIu64, i ? "," : "", b); } zfree(a); }
+            else { float *a = zalloc(cap * 4); ok = SCPI_ParamArrayFloat(c, a, cap, &n, SCPI_FORMAT_ASCII, mand); oprintf(" P18:%d:", ok); if (ok) for (size_t i = 0; i < n && i < cap; i++) { uint32_t b; memcpy(&b, &a[i], 4); oprintf("%s%u", i ? "," : "", b); } zfree(a); }
             if (ok) oprintf(";%zu", n); }
         else if (!strcmp(name, "PEXPRN")) {  /* PEXPRN:idx:mand -- parameter must be an expression; numeric list entry idx (double) */
             scpi_parameter_t p; AFTER(atoi(a2)) ok = SCPI_Parameter(c, &p, mand); flushw(); oprintf(" P19:%d:", ok);
@@ -113,11 +119,11 @@ static scpi_result_t generic(scpi_t *c) {
                 oprintf("%d", (int) r); if (r == SCPI_EXPR_OK) { oprintf(",%d,%d,%d", ir ? 1 : 0, (int) (f.ptr - p.ptr), f.len); if (ir) oprintf(",%d,%d", (int) (t.ptr - p.ptr), t.len); } } }
         else if (!strcmp(name, "PEXPRC")) {  /* PEXPRC:idx:cap:mand -- channel list entry */
             scpi_parameter_t p; AFTER(atoi(a3)) ok = SCPI_Parameter(c, &p, mand); flushw(); oprintf(" P20:%d:", ok);
-            if (ok) { int cap = atoi(a2); scpi_bool_t ir = 0; size_t dims = 0; int32_t *f = malloc(cap * 4 + 1), *t = malloc(cap * 4 + 1);
+            if (ok) { int cap = atoi(a2); scpi_bool_t ir = 0; size_t dims = 0; int32_t *f = zalloc(cap * 4), *t = zalloc(cap * 4);
                 scpi_expr_result_t r = SCPI_ExprChannelListEntry(c, &p, atoi(a1), &ir, cap ? f : NULL, cap ? t : NULL, cap, &dims);
                 oprintf("%d", (int) r);
                 if (r == SCPI_EXPR_OK) { int m = cap < (int) dims ? cap : (int) dims; oprintf(",%d,%zu", ir ? 1 : 0, dims); for (int i = 0; i < m; i++) oprintf(",%d", f[i]); if (ir) for (int i = 0; i < m; i++) oprintf(",%d", t[i]); }
-                free(f); free(t); } }
+                zfree(f); zfree(t); } }
         else if (!strcmp(name, "RI32")) SCPI_ResultInt32(c, (int32_t) strtoll(a1, 0, 10));
         else if (!strcmp(name, "RU32")) SCPI_ResultUInt32Base(c, (uint32_t) strtoull(a1, 0, 10), atoi(a2));
         else if (!strcmp(name, "RI64")) SCPI_ResultInt64(c, (int64_t) strtoll(a1, 0, 10));
@@ -142,7 +148,7 @@ static scpi_result_t generic(scpi_t *c) {
             else if (size == 4) SCPI_ResultArrayUInt32(c, arr, n, fmt); else SCPI_ResultArrayUInt64(c, arr, n, fmt);
             free(arr); free(raw); }
         else if (!strcmp(name, "PUSH")) SCPI_ErrorPush(c, atoi(a1));
-        else if (!strcmp(name, "NUMS")) { int n = atoi(a1); int32_t *a = malloc(sizeof(int32_t) * (n)); for (int i = 0; i < n; i++) a[i] = -99; int r = SCPI_CommandNumbers(c, a, n, atoi(a2)); flushw(); oprintf(" N%d:", r); for (int i = 0; i < n; i++) oprintf("%s%d", i ? "," : "", a[i]); free(a); }
+        else if (!strcmp(name, "NUMS")) { int n = atoi(a1); int32_t *a = zalloc(sizeof(int32_t) * (n)); for (int i = 0; i < n; i++) a[i] = -99; int r = SCPI_CommandNumbers(c, a, n, atoi(a2)); flushw(); oprintf(" N%d:", r); for (int i = 0; i < n; i++) oprintf("%s%d", i ? "," : "", a[i]); zfree(a); }
         else if (!strcmp(name, "ISCMD")) { unsigned char *t = malloc(strlen(a1) / 2 + 1); size_t n = unhex(a1, t); t[n] = 0; int r = SCPI_IsCmd(c, (char *) t); flushw(); oprintf(" I%d", r ? 1 : 0); free(t); }
         else if (!strcmp(name, "SYSTERR")) SCPI_SystemErrorNextQ(c);
         else if (!strcmp(name, "RETERR")) { ret = SCPI_RES_ERR; break; }
@@ -247,16 +253,16 @@ static void run_match(char *line) {
     char *pc = exact(p, pl + 1); char *hc = exact(h, hl + 1);
     oput("MATCH", 5);
     if (n < 0) { int r = matchCommand(pc, hc, hl, NULL, 0, dflt); oprintf(" %d", r ? 1 : 0); }
-    else { int32_t *a = malloc(4 * (n)); for (int i = 0; i < n; i++) a[i] = -99; int r = matchCommand(pc, hc, hl, a, n, dflt); oprintf(" %d:", r ? 1 : 0); for (int i = 0; i < n; i++) oprintf("%s%d", i ? "," : "", a[i]); free(a); }
+    else { int32_t *a = zalloc(4 * (n)); for (int i = 0; i < n; i++) a[i] = -99; int r = matchCommand(pc, hc, hl, a, n, dflt); oprintf(" %d:", r ? 1 : 0); for (int i = 0; i < n; i++) oprintf("%s%d", i ? "," : "", a[i]); zfree(a); }
     free(pc); free(hc); free(p); free(h);
 }
 
 /* ------------------------------------------------------------------ integer formatting (kind I2S) */
 static void run_i2s(char *line) {
     int w, len, base, sign; unsigned hi, lo; sscanf(line, "I2S %d %u %u %d %d %d", &w, &hi, &lo, &len, &base, &sign);
-    uint64_t v = ((uint64_t) hi << 32) | lo; char *b = malloc(len); memset(b, 0x7e, len);
+    uint64_t v = ((uint64_t) hi << 32) | lo; char *b = zalloc(len); memset(b, 0x7e, len);
     size_t r = w == 32 ? UInt32ToStrBaseSign((uint32_t) v, b, len, (int8_t) base, sign) : UInt64ToStrBaseSign(v, b, len, (int8_t) base, sign);
-    oput("I2S ", 4); ohex(b, r < (size_t) len ? r : (size_t) len); oprintf(" %d %zu", (r < (size_t) len && b[r] == 0) ? 1 : 0, r); free(b);
+    oput("I2S ", 4); ohex(b, r < (size_t) len ? r : (size_t) len); oprintf(" %d %zu", (r < (size_t) len && b[r] == 0) ? 1 : 0, r); zfree(b);
 }
 
 /* sweep over 32-bit values against an oracle built from libc printf (bases 8, 10, 16) and a plain loop (base 2):
@@ -277,11 +283,11 @@ static void run_i2ssweep(char *line) {
             char exp[48]; size_t el = canon32(v, bases[bi], sign, exp);
             memset(full, 0x7e, 40); size_t r = UInt32ToStrBaseSign(v, full, 40, (int8_t) bases[bi], sign); n++;
             if (r != el || memcmp(full, exp, el) != 0 || full[el] != 0) { snprintf(bad, sizeof bad, "v=%u,base=%d,sign=%d,len=40,got=%.*s,r=%zu,want=%s", v, bases[bi], sign, (int) (r < 40 ? r : 40), full, r, exp); break; }
-            size_t tl = (size_t) ((v ^ (v >> 7) ^ (unsigned) bi) % (el + 2)); char *tb = malloc(tl); memset(tb, 0x7e, tl);
+            size_t tl = (size_t) ((v ^ (v >> 7) ^ (unsigned) bi) % (el + 2)); char *tb = zalloc(tl); memset(tb, 0x7e, tl);
             r = UInt32ToStrBaseSign(v, tb, tl, (int8_t) bases[bi], sign); n++;
             size_t wantr = el < tl ? el : tl;
             if (r != wantr || memcmp(tb, exp, wantr) != 0 || (wantr < tl && tb[wantr] != 0)) snprintf(bad, sizeof bad, "v=%u,base=%d,sign=%d,len=%zu,r=%zu,want=%.*s", v, bases[bi], sign, tl, r, (int) wantr, exp);
-            free(tb); if (bad[0] != '-') break;
+            zfree(tb); if (bad[0] != '-') break;
         }
     }
     free(full); oprintf("I2SSWEEP n=%llu bad=%s", n, bad);
@@ -384,25 +390,25 @@ static void run_eq(char *line) {
 static scpi_unit_t unit_of(const char *n) { for (int i = 0; scpi_units_def[i].name; i++) if (!strcmp(scpi_units_def[i].name, n)) return scpi_units_def[i].unit; return SCPI_UNIT_NONE; }
 static void run_fp2s(char *line) {
     uint64_t b; int len; char k = line[0]; sscanf(line + 4, "%" SCNx64 " %d", &b, &len);
-    char *buf = malloc(len); memset(buf, 0x7e, len); size_t r;
+    char *buf = zalloc(len); memset(buf, 0x7e, len); size_t r;
     if (k == 'D') { double d; memcpy(&d, &b, 8); r = SCPI_DoubleToStr(d, buf, len); } else { uint32_t w = (uint32_t) b; float f; memcpy(&f, &w, 4); r = SCPI_FloatToStr(f, buf, len); }
-    oprintf("%c2S ", k); ohex(buf, r < (size_t) len ? r : (size_t) len); oprintf(" %d %zu", (r < (size_t) len && buf[r] == 0) ? 1 : 0, r); free(buf);
+    oprintf("%c2S ", k); ohex(buf, r < (size_t) len ? r : (size_t) len); oprintf(" %d %zu", (r < (size_t) len && buf[r] == 0) ? 1 : 0, r); zfree(buf);
 }
 static void run_n2s(char *line) {
     /* N2S special tag-or-bits unitname|- len */
     int special, len; uint64_t b; char un[64]; sscanf(line, "N2S %d %" SCNx64 " %63s %d", &special, &b, un, &len);
     scpi_number_t v; memset(&v, 0, sizeof v); v.special = special; if (special) v.content.tag = (int32_t) b; else memcpy(&v.content.value, &b, 8);
     v.unit = strcmp(un, "-") ? unit_of(un) : SCPI_UNIT_NONE; v.base = 10; ginit();
-    char *buf = malloc(len); memset(buf, 0x7e, len);
+    char *buf = zalloc(len); memset(buf, 0x7e, len);
     size_t r = SCPI_NumberToStr(&gctx, scpi_special_numbers_def, &v, buf, len);
-    oput("N2S ", 4); for (int i = 0; i < len; i++) { if ((unsigned char) buf[i] == 0x7e) oput("--", 2); else ohex(buf + i, 1); } oprintf(" %zu", r); free(buf);
+    oput("N2S ", 4); for (int i = 0; i < len; i++) { if ((unsigned char) buf[i] == 0x7e) oput("--", 2); else ohex(buf + i, 1); } oprintf(" %zu", r); zfree(buf);
 }
 static void run_dtostre(char *line) {
     uint64_t b; int prec, size, flags = 0; sscanf(line, "DTOSTRE %" SCNx64 " %d %d %d", &b, &prec, &size, &flags); double d; memcpy(&d, &b, 8);
-    char *buf = malloc(size); memset(buf, 0x7e, size);
+    char *buf = zalloc(size); memset(buf, 0x7e, size);
     oput("DTOSTRE ", 8);
     if (isfinite(d)) { char dg[40]; int decpt = 0, sign = 0; scpi_ecvt(signbit(d) ? -d : d, prec, &decpt, &sign, dg, 31); oprintf("%s,%d ", dg, decpt); } else oput("-,0 ", 4);
-    char *r = SCPI_dtostre(d, buf, size, prec, flags); (void) r; size_t l = strnlen(buf, size); ohex(buf, l); oprintf(" %d", l < (size_t) size ? 1 : 0); free(buf);
+    char *r = SCPI_dtostre(d, buf, size, prec, flags); (void) r; size_t l = strnlen(buf, size); ohex(buf, l); oprintf(" %d", l < (size_t) size ? 1 : 0); zfree(buf);
 }
 
 /* ARR fmt size hex-of-little-endian-element-images : SCPI_ResultArrayUInt8/16/32/64 on a fresh item context */
@@ -434,11 +440,11 @@ static void run_expr(char *line) {
     { scpi_bool_t ir = 0; int32_t a = 0, b = 0; scpi_expr_result_t r = SCPI_ExprNumericListEntryInt(&ctx, &p, idx, &ir, &a, &b);
       oprintf(" i%d", (int) r); if (r == SCPI_EXPR_OK) oprintf(",%d,%d,%d", ir ? 1 : 0, a, ir ? b : 0); }
     SCPI_ErrorClear(&ctx); n170 = 0;
-    { scpi_bool_t ir = 0; size_t dims = 0; int32_t *f = malloc(cap * 4 + 1), *t = malloc(cap * 4 + 1);
+    { scpi_bool_t ir = 0; size_t dims = 0; int32_t *f = zalloc(cap * 4), *t = zalloc(cap * 4);
       scpi_expr_result_t r = SCPI_ExprChannelListEntry(&ctx, &p, idx, &ir, cap ? f : NULL, cap ? t : NULL, cap, &dims);
       oprintf(" c%d", (int) r);
       if (r == SCPI_EXPR_OK) { int m = cap < (int) dims ? cap : (int) dims; oprintf(",%d,%zu,[", ir ? 1 : 0, dims); for (int i = 0; i < m; i++) oprintf("%s%d", i ? "," : "", f[i]); oput("],[", 3); if (ir) for (int i = 0; i < m; i++) oprintf("%s%d", i ? "," : "", t[i]); oput("]", 1); }
-      oprintf(",e%d", n170); free(f); free(t); }
+      oprintf(",e%d", n170); zfree(f); zfree(t); }
     SCPI_ErrorClear(&ctx); free(full); free(body);
 }
 
